@@ -293,11 +293,6 @@ fn render_line(r: &mut Rng, ts: &[String]) -> String {
         s.push('\t');
     }
     for (i, t) in ts.iter().enumerate() {
-        // now and then the bullet is glued to the first word of the description
-        if i == 1 && ts[0] == BULLET && r.chance(10) {
-            s.push_str(t);
-            continue;
-        }
         if i > 0 {
             match r.below(10) {
                 0 => s.push_str("  "),
